@@ -53,8 +53,8 @@ PROPS["C04"] = dict(
     design_ref="DESIGN.md section 5, C04",
     technique="contract-based deductive verification (Verus): recursive closed-forest predicate as part of the frame law of every ParserState operation; precondition of pairs::new discharged in state()",
     level_text="Part (a), emission: proved for all call trees of lawful closures that the tokens appended by any operation form a closed forest (balanced, properly nested, positions non-decreasing, on UTF-8 boundaries, within the text walked), hence every successful parse hands pairs::new a well-formed stream. Part (b), views: see the pairs unit.",
-    level_note="As C03. Display/Debug/JSON/concat views build strings through format!/serde and are outside the Verus subset; the node-tag views are iterator-adaptor code and are decided only by the pairs_search enumeration in the quick tier (bounded stand-in, not counted).",
-    assumptions=CORE_ASSUME, not_covered=CORE_NOT_COVERED + ["Display, Debug, to_json, concat: format!/serde, not covered",
+    level_note="As C03. Display/Debug/JSON/concat views build strings through format!/serde and are outside the Verus subset; the node-tag views and the text views are decided only by the pairs_search enumeration in the quick tier (bounded stand-in, not counted).",
+    assumptions=CORE_ASSUME, not_covered=CORE_NOT_COVERED + ["Display, alternate Display, Debug, to_json: format!/serde code outside every contract - decided only by the pairs_search enumeration (bounded stand-in; known finding F6 for the empty top-level Pairs); Pairs::concat is not covered",
         "node-tag views (as_node_tag, find_tagged, find_first_tagged: Filter<FlatPairs, impl FnMut>) are iterator-adaptor code outside every contract: decided only by the pairs_search enumeration (bounded stand-in, every forest of <= 3 nodes x every tag assignment)"],
 )
 PROPS["C08"] = dict(
@@ -94,11 +94,11 @@ PROPS["C10"] = dict(
     kani=["inmod_c10", "lines_enum"], searcher=["lines"],
     design_ref="DESIGN.md section 5, C10",
     technique="contract-based deductive verification (Verus) of the index arithmetic over vstd's UTF-8 theory; bounded Kani harnesses for the iterator-chain functions and an exhaustive native enumeration of short texts for the clauses outside every contract (error construction and rendering)",
-    level_text="Unbounded proof: LineIndex::new records exactly the offsets after every newline character (loop invariant over chars()); LineIndex::line_col returns (1 + newlines before the offset, 1 + characters since the last newline) for every boundary offset inside the indexed prefix; Span::new / Position::new succeed exactly on ordered boundary offsets; merge_spans; line_of and LinesSpan::next yield exactly the line [ls, le) containing the cursor and advance to the start of the next line - the last two given the assumed contracts of find_line_start / find_line_end.",
-    level_note="Assumed: find_line_start / find_line_end (char_indices/rev/skip_while/find chains), std partition_point and chars().count() contracts, str range indexing helper. Position::line_col is verified from its body (chars().peekable() through assumed std contracts of core::iter::Peekable, R31/R32): it returns exactly (1 + newlines, 1 + characters since the last newline) of the characters before the offset. Outside every contract: Error::new_from_pos/new_from_span and Display (format!, String building) - decided only by bounded stand-ins: Kani harnesses on strings of <= 3 characters and the lines_search enumeration (every text of <= 5 characters over a 6-character mixed alphabet, every offset and offset pair, all access paths, rendered marker position).",
+    level_text="Unbounded proof: LineIndex::new records exactly the offsets after every newline character (loop invariant over chars()); LineIndex::line_col returns (1 + newlines before the offset, 1 + characters since the last newline) for every boundary offset inside the indexed prefix; Span::new / Position::new succeed exactly on ordered boundary offsets; merge_spans; find_line_start / find_line_end return exactly the byte-level line start ls / line end le (their iterator chains desugared by R33 over assumed std contracts of CharIndices; a 0x0A byte is proved to occur only as the one-byte character '\\n'); line_of and LinesSpan::next yield exactly the line [ls, le) containing the cursor and advance to the start of the next line.",
+    level_note="Assumed: std contracts only - CharIndices (next / next_back yield (byte offset, char) in order), Peekable, partition_point, chars().count(), str range indexing helper. Position::line_col is verified from its body (chars().peekable() through assumed std contracts of core::iter::Peekable, R31/R32): it returns exactly (1 + newlines, 1 + characters since the last newline) of the characters before the offset. Outside every contract: Error::new_from_pos/new_from_span and Display (format!, String building) - decided only by bounded stand-ins: the lines_search enumeration (every text of <= 5 characters over a 6-character mixed alphabet, every offset and offset pair, all access paths, rendered marker position).",
     assumptions=["Verus + Z3 + vstd (UTF-8 theory); extractor with rewrites R3,R5,R6,R11,R16,R17,R23",
                  "std contracts on trusted helpers: core::iter::Peekable (peekable / next / peek: the remaining items), partition_point (on a sorted Vec<usize>), chars().count(), str range indexing, str::get -> SliceIndex::get, core::cmp::min/max on usize",
-                 "ASSUMED contracts: Position::find_line_start == ls, Position::find_line_end == le (byte-level line specs)"],
+                 "std contracts for core::str::CharIndices (next / next_back) and the helper vx_char_indices: the items are (off(cs,k), cs[k]) in order"],
     not_covered=["Position::line_col (chars().peekable()): not in the Verus subset; bounded harness planned",
                  "Error::new_from_pos / new_from_span / Display rendering: format!/String code, not covered",
                  "Span::get(range: impl RangeBounds), Lines::next (Option::map with a closure)"],
